@@ -164,13 +164,14 @@ def check_txt(case: Tuple[Tuple[Any, Any], ...]) -> Tuple[Optional[Dict[str, Any
         text = info.text
         back = ServiceInfo("_a._tcp.local.", "x._a._tcp.local.", 80, properties=text).properties
         own = info.properties  # what the describing object itself reports back
-        ref = nm.parse_txt(text)
+        ref = nm.parse_txt(text, fold_empty=False)
     except Exception as e:  # noqa: BLE001
         return ({"what": f"C19 properties {case!r}: {type(e).__name__}: {e}", "replay": {"kind": "txt"},
                  "signature": {"check": "txt-exception"}}, "exception")
     bad = None
-    if ref != want:
-        bad = f"TXT bytes {text!r} parse (RFC 6763 s.6) to {ref}, the dictionary means {want}"
+    want_exact = nm.expected_txt(list(case), fold_empty=False)  # an independent parser tells 'key=' (empty value) from 'key'
+    if ref != want_exact:
+        bad = f"TXT bytes {text!r} parse (RFC 6763 s.6) to {ref}, the dictionary means {want_exact}"
     elif back != want:
         bad = f"the library reads its own TXT bytes {text!r} back as {back}, expected {want}"
     elif {k: (v or None) for k, v in own.items()} != want or not all(
